@@ -7,9 +7,10 @@ from harness.gen import c07gen as G
 from harness.impl import c07impl as I
 
 IMPORTS = "From Ford Require Import Base.Str Sem.Scope Corr.C07."
-THEOREMS = ["C07_partial", "C07_refuted_proc_shadow", "C07_refuted_sibling_leak", "C07_statement_refuted",
-            "C07_unresolved_stays_text", "C07_example_hypotheses"]
-REGION_KEYS = {1: "contained-procedure-does-not-shadow-host", 2: "local-declarations-leak-through-shared-tables"}
+THEOREMS = ["C07_types_and_procedures", "C07_partial", "C07_model_characterised", "C07_refuted_abs_over_proc",
+            "C07_statement_refuted", "C07_fixed_proc_shadow", "C07_fixed_sibling_leak", "C07_unresolved_stays_text",
+            "C07_example_hypotheses"]
+REGION_KEYS = {1: "abstract-interface-does-not-shadow-host-procedure"}
 
 
 def coq_slot(d):
@@ -55,6 +56,12 @@ def witness_proc_shadow():
     return {"units": [sc("m", "module", procs=[sc("helper", "subroutine"), a])], "submodules": []}
 
 
+def witness_abs_over_proc():
+    """module m: subroutine x; subroutine a declares an abstract interface x and procedure(x), pointer :: p"""
+    a = sc("a", "subroutine", vars=[var("p", "proc", "x")], absints=[sc("x", "absbody")])
+    return {"units": [sc("m", "module", procs=[sc("x", "subroutine"), a])], "submodules": []}
+
+
 def witness_sibling_leak():
     """module m: subroutine a declares type t; sibling b and the module itself declare type(t) variables"""
     a = sc("a", "subroutine", types=[ty("t")], vars=[var("x", "type", "t")])
@@ -72,6 +79,7 @@ def witness_local_overrides_host():
 
 def fixed_programs():
     out = [("witness:proc_shadow", witness_proc_shadow()), ("witness:sibling_leak", witness_sibling_leak()),
+           ("witness:abs_over_proc", witness_abs_over_proc()),
            ("witness:local_overrides_host", witness_local_overrides_host())]
     # every slot kind once, unique names, two modules, an external procedure, undeclared names
     ma = sc("ma", "module",
@@ -136,7 +144,7 @@ class Runner:
     def judge(self):
         chk = self.chk
         stats = {"units": len(self.cases), "slots": sum(len(c[4]) for c in self.cases), "model_mismatch": 0,
-                 "spec_violation_in_region": 0, "spec_violation_outside": 0, "regions": {},
+                 "spec_violation_in_region": 0, "spec_violation_outside": 0, "regions": {}, "not_legal_spec_skipped": 0,
                  "resolved_slots": sum(1 for c in self.cases for o in c[4] if o[2] is not None)}
         terms = [coq_case(p["units"], u, obs) for _, p, u, _, obs in self.cases]
         res = chk.coq_judge(IMPORTS, "case", "judge", terms, shard=max(8, len(terms) // 16 + 1))
@@ -144,9 +152,12 @@ class Runner:
             return stats
         chk.traces += len(terms)
         stats["region_free_agreeing_with_spec"] = len(terms) - len(res)
-        for j, code in sorted(res.items(), key=lambda jc: (not (jc[1] & 2 and (jc[1] >> 2) & 3 == 0), jc[0])):
+        for j, code in sorted(res.items(), key=lambda jc: (not (jc[1] & 2), jc[0])):
             label, prog, u, files, obs = self.cases[j]
-            region = (code >> 2) & 3
+            region = (code >> 2) & 1
+            deviates = (code >> 5) & 1
+            if (code >> 3) & 1:
+                stats["not_legal_spec_skipped"] += 1
             if (code >> 4) & 1:
                 chk.violation("broken-correspondence", {"what": "projection is not a well-formed event list",
                                                         "label": label, "unit": u["name"], "files": files}, False)
@@ -155,9 +166,15 @@ class Runner:
                     stats["regions"][key] = stats["regions"].get(key, 0) + 1
             payload = {"label": label, "unit": u["name"], "prog": prog, "files": files, "code": code,
                        "observed": [[p, list(d), e] for p, d, e in obs],
-                       "meaning": "bit0 model!=impl, bit1 impl slots differ from the Spec, bits>=2 region mask "
-                                  "(1 contained procedure vs host procedure, 2 shared-table leak)"}
+                       "meaning": "bit0 model!=impl, bit1 impl differs from the Spec on a slot where the model agrees with "
+                                  "the Spec, bits>=2: 1 region (an inner abstract interface hides an outer procedure), "
+                                  "2 not a legal unit (Spec not asked), 4 projection not well formed, 8 impl differs "
+                                  "from the Spec somewhere"}
             if code & 2:
+                chk.disagreements += 1
+                stats["spec_violation_outside"] += 1
+                chk.violation("failing-input", payload, True)
+            elif deviates:
                 chk.disagreements += 1
                 if region == 0:
                     stats["spec_violation_outside"] += 1
@@ -169,7 +186,7 @@ class Runner:
                             chk.violation("failing-input", payload, True)
             if code & 1:
                 stats["model_mismatch"] += 1
-                if not (code & 2 and region == 0):
+                if not code & 2:
                     chk.violation("broken-correspondence", payload, False)
         # submodule ancestors / parents
         if self.subs:
@@ -282,12 +299,20 @@ def slot_of(prog, unit, path, slot):
 
 
 def replay_findings(chk):
+    # repaired in /repo (fixed: entries in known_findings.d/C07.json): reported as failing inputs if they return
     e = slot_of(witness_proc_shadow(), "m", ["m", "a"], ("SVar", "p"))
-    chk.known("contained-procedure-does-not-shadow-host", e == ["m", "helper"])
+    if e != ["m", "a", "helper"]:
+        chk.violation("failing-input", {"what": "a contained procedure does not shadow the host's procedure of the same name",
+                                        "slot": e, "prog": witness_proc_shadow(),
+                                        "files": G.render_files(witness_proc_shadow())}, True)
     p = witness_sibling_leak()
     e1 = slot_of(p, "m", ["m", "b"], ("SVar", "y"))
     e2 = slot_of(p, "m", ["m"], ("SVar", "z"))
-    chk.known("local-declarations-leak-through-shared-tables", e1 == ["m", "a", "t"] or e2 == ["m", "a", "t"])
+    if e1 is not None or e2 is not None:
+        chk.violation("failing-input", {"what": "a type declared inside one procedure is visible in a sibling or in the host",
+                                        "slots": [e1, e2], "prog": p, "files": G.render_files(p)}, True)
+    e = slot_of(witness_abs_over_proc(), "m", ["m", "a"], ("SVar", "p"))
+    chk.known("abstract-interface-does-not-shadow-host-procedure", e == ["m", "x"])
     prog = witness_unresolved_binding()
     _, _, problems = I.html_check(prog, G.render_files(prog))
     # repaired in /repo 1b07a9c (fixed: entry in known_findings.d/C07.json): reported again if it returns
